@@ -267,6 +267,7 @@ async fn conn_task(host: String, mut s: TcpStream) {
     {
         let mut h = HIST.lock();
         h.backend_conns[conn_idx].authed_seq = Some(authed_seq);
+        h.backend_conns[conn_idx].authed_us = Some(simcore::clock::now_us());
         let db = h.backend_conns[conn_idx].database.clone();
         let count = h
             .backend_conns
